@@ -344,6 +344,13 @@ impl InterfaceInner {
                     return;
                 }
 
+                // Starting a new packet while fragments of the previous one are still unsent
+                // would overwrite them (sockets are held back in `socket_egress`).
+                if !pkt.finished() {
+                    net_debug!("dispatch_ieee802154: dropping, fragmenter is busy with a previous packet");
+                    return;
+                }
+
                 let payload_length = packet.header.payload_len;
 
                 Self::ipv6_to_sixlowpan(
